@@ -105,6 +105,22 @@ def handle : Handler := fun op inp =>
       return jSE (fun (nd : StageFiles.NodeData) =>
         jObj [("query", jMatrix nd.query), ("reference", jMatrix nd.reference)])
         (StageFiles.mapperNode f lk q m parent)
+  | "stats.precomputeLoads" => some do
+      -- the OBSERVED assignment of chunks to workers: loads = [[[file, r0, r1], ...], ...]
+      let nC ← asNat (← field inp "nClusters")
+      let g ← asNat (← field inp "g")
+      let tbl ← parseTable (← field inp "nameToRow")
+      let files ← asList parseFile (← field inp "files")
+      let loads ← asList (asList (asList asNat)) (← field inp "loads")
+      let mk : List Nat → R Chunk := fun c =>
+        match c with
+        | [f, r0, r1] =>
+          match files.lookup f with
+          | some cells => .ok ⟨f, r0, r1, slice cells r0 r1⟩
+          | none => .error "chunk of an unknown file"
+        | _ => .error "chunk: [file, r0, r1] expected"
+      let ls ← loads.mapM (fun l => l.mapM mk)
+      return jExcept jBuffer (precomputeLoads nC g tbl ls)
   | "stats.precompute" => some do
       let nC ← asNat (← field inp "nClusters")
       let g ← asNat (← field inp "g")
